@@ -20,8 +20,8 @@ theorem invA_init (c : Cfg) : InvA c init := by
 
 @[simp] theorem adj_idle  : adj (.idle ) = 0 := rfl
 @[simp] theorem adj_done {r} : adj (.done r) = 0 := rfl
-@[simp] theorem adj_rd {k} : adj (.rd k) = 0 := rfl
-@[simp] theorem adj_ins {k} {v} {c} : adj (.ins k v c) = 0 := rfl
+@[simp] theorem adj_rd {k p} : adj (.rd k p) = 0 := rfl
+@[simp] theorem adj_ins {k v c e l} : adj (.ins k v c e l) = 0 := rfl
 @[simp] theorem adj_insSub {k} {c} {old} : adj (.insSub k c old) = (c : Int) - old := rfl
 @[simp] theorem adj_insEv {k} {c} : adj (.insEv k c) = (c : Int) := rfl
 @[simp] theorem adj_insAdd {k} {c} : adj (.insAdd k c) = (c : Int) := rfl
@@ -43,6 +43,7 @@ theorem invA_init (c : Cfg) : InvA c init := by
 @[simp] theorem adj_mNote {m} {ws} {ns} : adj (.mNote m ws ns) = 0 := rfl
 @[simp] theorem adj_mTtl {m} : adj (.mTtl m) = 0 := rfl
 @[simp] theorem adj_mTtlMap {m} {e} : adj (.mTtlMap m e) = 0 := rfl
+@[simp] theorem adj_mTti {m} : adj (.mTti m) = 0 := rfl
 @[simp] theorem adj_mCapLoad {m} : adj (.mCapLoad m) = 0 := rfl
 @[simp] theorem adj_mCapEvict {m} {n} : adj (.mCapEvict m n) = 0 := rfl
 @[simp] theorem adj_mCapMap {m} {v} {r} : adj (.mCapMap m v r) = 0 := rfl
@@ -57,7 +58,7 @@ theorem invA_init (c : Cfg) : InvA c init := by
   unfold afterSub; split <;> first | exact adj_nextAdmit _ _ | rfl
 @[simp] theorem adj_afterVictim (m : MCtx) (ws vs tot ns) : adj (afterVictim m ws vs tot ns) = - (tot : Int) := by
   unfold afterVictim; split <;> rfl
-@[simp] theorem adj_startPC (op : Op) : adj (startPC op) = 0 := by cases op <;> rfl
+@[simp] theorem adj_startPC (c : Cfg) (n : Nat) (op : Op) : adj (startPC c n op) = 0 := by cases op <;> rfl
 
 theorem pend_upd (n : Nat) (pc : Nat → PC) (t : Nat) (x : PC) (ht : t < n) :
     sumF (List.range n) (fun u => adj (upd pc t x u)) = sumF (List.range n) (fun u => adj (pc u)) - adj (pc t) + adj x := by
@@ -197,6 +198,21 @@ theorem invA_ttlMap {c : Cfg} {s s' : State} {t : Nat} {sent : Bool} (hi : InvA 
     simp [hpc]
   · simp at h
 
+theorem invA_ttiMap {c : Cfg} {s s' : State} {t : Nat} {vs : List Nat} {sent : Bool} (hi : InvA c s)
+    (h : stepTtiMap c s t vs sent = some s') : InvA c s' := by
+  unfold stepTtiMap at h
+  split at h
+  · rename_i m hpc
+    have ht : t < c.nThreads := tlt hi (by simp_all)
+    split at h
+    · simp at h; subst h
+      refine invA_nomap hi ht _ rfl rfl rfl rfl rfl ?_
+      simp [hpc]
+    · simp at h; subst h
+      refine invA_removeKeys hi ht _ rfl c.nShards m.sh (expiredOf c s vs) rfl rfl ?_ hi.clean
+      simp [hpc]
+  · simp at h
+
 theorem invA_capMap {c : Cfg} {s s' : State} {t : Nat} {sent : Bool} (hi : InvA c s)
     (h : stepCapMap c s t sent = some s') : InvA c s' := by
   unfold stepCapMap at h
@@ -216,6 +232,7 @@ theorem invA_step {c : Cfg} {s s' : State} {t : Nat} {l : Label} (hi : InvA c s)
     InvA c s' := by
   cases l <;> simp only [step] at h
   case call op => inva_step hi h stepCall c t
+  case advance d => simp at h; subst h; exact ⟨hi.fresh, hi.domNodup, hi.domCover, hi.acct, hi.clean⟩
   case read => inva_step hi h stepRead c t
   case insMap => inva_step hi h stepInsMap c t
   case insSub => inva_step hi h stepInsSub c t
@@ -240,6 +257,7 @@ theorem invA_step {c : Cfg} {s s' : State} {t : Nat} {l : Label} (hi : InvA c s)
   case evNote sent => inva_step hi h stepEvNote c t
   case ttlAdvance e => inva_step hi h stepTtlAdvance c t
   case ttlMap sent => exact invA_ttlMap hi h
+  case ttiMap vs sent => exact invA_ttiMap hi h
   case capLoad => inva_step hi h stepCapLoad c t
   case capEvict v r => inva_step hi h stepCapEvict c t
   case capMap sent => exact invA_capMap hi h
